@@ -71,9 +71,17 @@ impl Prop for C04 {
               let mut srcs = vec!["scalar"];
               if forms.len() == 1 && matches!(forms[0], "v" | "ri" | "m" | "mm") { srcs.push("vector"); }
               if *op == "=" && d == 0 { srcs.push("wrongkind"); }
+              // special scalar sources: exactly zero (a kernel that treats a zero operand as "nothing to do"), and a value that
+              // one of the addressed elements already holds (a kernel that stops or skips at an element equal to the source)
+              if d == 0 && *k != "bool" && *k != "string" {
+                if *op != "/=" || is_float(k) { srcs.push("scalar0"); }
+                if *op == "=" || *op == "+=" { srcs.push("scalarP"); }
+              }
               for st in srcs.iter() {
-                let base = format!("kind={};shape={}x{};form={};op={};src={}", k, r, c, fname, op, st);
-                let mut rng = Rng::keyed(seed, &format!("{};d={}", base, d));
+                // (the special scalar sources are further value draws of the scalar cells)
+                let base = format!("kind={};shape={}x{};form={};op={};src={}", k, r, c, fname, op, if st.starts_with("scalar") { "scalar" } else { st });
+                let dtag = match *st { "scalar0" => "z".to_string(), "scalarP" => "p".to_string(), _ => d.to_string() };
+                let mut rng = Rng::keyed(seed, &format!("{};d={}", base, dtag));
                 let ik = *rng.pick(&["f64", "f64", "u8", "u64"]);
                 let x = index_matrix(k, *r, *c, rng.below(5) as i64);
                 let w = index_matrix(k, 2, 2, 40);
@@ -83,12 +91,14 @@ impl Prop for C04 {
                 let mk = |i: i64| -> CVal { if *k == "bool" { CVal::S("bool".into(), Sc::B(i % 2 == 0)) } else { CVal::S(k.to_string(), small_val(k, if op.starts_with('/') || op.starts_with('*') { 2 + i % 2 } else { 1 + i % 4 })) } };
                 let v: CVal = match *st {
                   "scalar" => mk(rng.below(4) as i64),
+                  "scalar0" => CVal::S(k.to_string(), match *k { "f64" => Sc::f64(0.0), "f32" => Sc::f32(0.0), "r64" => Sc::R(0, 1), "c64" => Sc::C(canon_f64(0.0), canon_f64(0.0)), _ => small_val(k, 0) }),
+                  "scalarP" => if pos.is_empty() { mk(1) } else { x.elems()[pos[0]].clone() },
                   "vector" => { let e: Vec<CVal> = (0..n as i64).map(|i| if *k == "bool" { mk(i) } else { CVal::S(k.to_string(), small_val(k, 50 + i)) }).collect(); CVal::M(k.to_string(), 1, n, e) }
                   _ => if *k == "string" { CVal::S("f64".into(), Sc::f64(3.5)) } else { CVal::S("string".into(), Sc::S("zz".into())) },
                 };
                 let stmt = stmt_text(&sels, ik, op, &v);
                 let readback = format!("x{}", index_text(&sels, ik));
-                out.push(Case { id: format!("{};var=in;d={}", base, d), cell: format!("{};var=in", base), input: json!({"kind": k, "x": x, "w": w, "v": v, "stmt": stmt, "readback": readback, "pos": pos, "op": op, "srctype": st, "probe": J::Null}) });
+                out.push(Case { id: format!("{};var=in;d={}", base, dtag), cell: format!("{};var=in", base), input: json!({"kind": k, "x": x, "w": w, "v": v, "stmt": stmt, "readback": readback, "pos": pos, "op": op, "srctype": if st.starts_with("scalar") { "scalar" } else { st }, "probe": J::Null}) });
                 if *st == "scalar" && (d == 0) && (*op == "=" || *op == "+=") {
                   for (p, e) in extents.iter().enumerate() {
                     for (label, bad) in oor_variants(&sels[p], *e) {
